@@ -28,8 +28,8 @@ import (
 	"github.com/skycoin/skycoin/src/daemon"
 	"github.com/skycoin/skycoin/src/daemon/gnet"
 	"github.com/skycoin/skycoin/src/daemon/pex"
-	"github.com/skycoin/skycoin/src/util/logging"
 
+	"verif/lib/fix"
 	"verif/lib/rp"
 	"verif/lib/vf"
 )
@@ -324,6 +324,17 @@ func check(r *vf.Run, l *local, rq *request, max uint64) {
 		r.Violation("encode-error", attrs, nil)
 		return
 	}
+	judge(r, l, "", rq, max, enc, k, attrs)
+}
+
+// judge applies (a), (b), (c) to one encoded message enc (the complete frame: length prefix,
+// id, item count, items) that is claimed to carry k items of request rq under the limit max.
+// The same judgement serves the constructor leg (enc = EncodeMessage of the constructor's
+// result) and the handler leg (enc = the frame a running node put on the wire; counter
+// names then carry the prefix "node.").
+func judge(r *vf.Run, l *local, prefix string, rq *request, max uint64, enc []byte, k int, attrs map[string]string) bool {
+	f := rq.fam
+	name := prefix + f.name
 	kmax := len(rq.cum) - 1
 	// boundary classes of the input pair (request, max), from the size model alone:
 	// kfit = the longest prefix that fits
@@ -332,28 +343,28 @@ func check(r *vf.Run, l *local, rq *request, max uint64) {
 		kfit++
 	}
 	if rq.cum[kfit] == max {
-		l.counts[f.name+".exact_fit"]++
+		l.counts[name+".exact_fit"]++
 	}
 	if kfit < kmax && rq.cum[kfit+1]-max == 1 {
-		l.counts[f.name+".next_item_one_byte_over"]++
+		l.counts[name+".next_item_one_byte_over"]++
 	}
 	if kfit < kmax && rq.cum[kfit+1]-max <= 4 {
-		l.counts[f.name+".next_item_1_to_4_bytes_over"]++
+		l.counts[name+".next_item_1_to_4_bytes_over"]++
 	}
 	// (a) fits: the comparison sendMessage applies
 	if uint64(len(enc)) > max {
 		attrs["encoded_len"] = fmt.Sprint(len(enc))
 		attrs["excess_bytes"] = fmt.Sprint(uint64(len(enc)) - max)
 		r.Violation("message-exceeds-limit", attrs, nil)
-		l.counts[f.name+".exceeds_limit"]++
-		return
+		l.counts[name+".exceeds_limit"]++
+		return false
 	}
 	// (b) prefix of the request
 	if k > kmax || uint64(len(enc)) != rq.cum[k] || binary.LittleEndian.Uint32(enc[8:12]) != uint32(k) ||
 		binary.LittleEndian.Uint32(enc[0:4]) != uint32(len(enc)-4) || !bytes.Equal(enc[headerSize:], rq.full[headerSize:rq.cum[k]]) {
 		attrs["encoded_len"] = fmt.Sprint(len(enc))
 		r.Violation("not-a-prefix-of-request", attrs, nil)
-		return
+		return false
 	}
 	// (c) longest
 	if k < kmax && rq.cum[k+1] <= max {
@@ -364,20 +375,21 @@ func check(r *vf.Run, l *local, rq *request, max uint64) {
 		attrs["fitting_items"] = fmt.Sprint(fit)
 		attrs["dropped_fitting_items"] = fmt.Sprint(fit - k)
 		r.Violation("not-longest-prefix", attrs, nil)
-		return
+		return false
 	}
-	l.distinct[fmt.Sprintf("%s:%d:%d:%d", f.name, rq.n, rq.cum[len(rq.cum)-1], k)] = struct{}{}
+	l.distinct[fmt.Sprintf("%s:%d:%d:%d", name, rq.n, rq.cum[len(rq.cum)-1], k)] = struct{}{}
 	// classes
 	switch {
 	case k == rq.n:
-		l.counts[f.name+".untruncated"]++
+		l.counts[name+".untruncated"]++
 	case k == f.cap && (k == kmax) && rq.n > f.cap && (max >= rq.cum[k]):
-		l.counts[f.name+".capped_by_item_limit"]++
+		l.counts[name+".capped_by_item_limit"]++
 	case k == 0:
-		l.counts[f.name+".truncated_to_zero"]++
+		l.counts[name+".truncated_to_zero"]++
 	default:
-		l.counts[f.name+".truncated_by_size"]++
+		l.counts[name+".truncated_by_size"]++
 	}
+	return true
 }
 
 // listLength: the first lists of a family have fixed lengths around the item cap, the others a
@@ -398,7 +410,11 @@ func listLength(rng *rand.Rand, f *family, idx int) int {
 }
 
 func main() {
-	logging.Disable()
+	if vf.ChildMode() == childMode {
+		childMain() // the node of the handler leg (nodechild.go)
+		return
+	}
+	fix.Quiet()
 	r := vf.Start("C23", "exploration")
 	mc := daemon.NewMessagesConfig()
 	mc.Register()
@@ -407,6 +423,13 @@ func main() {
 	if p := r.ReplayPath(); p != "" {
 		f := rp.Load(p, "C23")
 		r.Seed = f.Seed
+		if f.Attrs["leg"] == "node" {
+			// a handler-leg case: run that node configuration again (worlds and cases are a
+			// function of seed and tier)
+			r.Tier = f.Tier
+			nodeLeg(r, f.Attrs["config"])
+			rp.Done("C23", r.Violations())
+		}
 		var idx, profile int
 		if _, err := fmt.Sscanf(f.Attrs["list"], "%d/%d", &idx, &profile); err != nil {
 			fmt.Fprintln(os.Stderr, "replay: bad list attribute:", err)
@@ -443,6 +466,10 @@ func main() {
 			jobs = append(jobs, job{f, i, i % 3})
 		}
 	}
+	// the handler leg (real nodes + wire peer, nodeleg.go) runs beside the constructor leg
+	nodeDone := make(chan []*local, 1)
+	go func() { nodeDone <- nodeLeg(r, "") }()
+
 	var mu sync.Mutex
 	locals := []*local{}
 	vf.Parallel(len(jobs), workers, func(ji int) {
@@ -472,7 +499,15 @@ func main() {
 	for _, l := range locals {
 		l.merge(r)
 	}
+	for _, l := range <-nodeDone {
+		if l != nil {
+			l.merge(r)
+		}
+	}
+	nodeFloors(r)
 
+	r.Sample(map[string]interface{}{"leg": "node", "config": "default (outgoing 262144, incoming 1048576)", "request": "GETT with 256 hashes of pool transactions, ~450 KB in total",
+		"expect": "one GIVT frame of at most 262144 bytes carrying the first k requested transactions, k the largest count that fits"})
 	r.Sample(map[string]interface{}{"message": "AnnounceTxns", "requested": 3, "max": 76, "expect": "2 hashes: 12 + 2*32 = 76 bytes fits, 108 does not"})
 	r.Sample(map[string]interface{}{"message": "AnnounceTxns", "requested": 3, "max": 75, "expect": "1 hash (44 bytes); 2 hashes need 76"})
 	r.Sample(map[string]interface{}{"message": "GivePeers", "requested": 600, "max": 262144, "expect": "512 peers (item cap), 12 + 512*6 bytes"})
@@ -491,7 +526,9 @@ func main() {
 	r.Floor("GiveTxns.lists_larger_than_default_limit", 1)
 	r.Floor("pairs", int64(r.Pick(100000, 5000000)))
 
-	r.Finish("item lists of 0,1,2,3,cap-1,cap,cap+1,600 and random lengths with small/typical/large items; limits at every cumulative encoded size +-0..5 bytes, random limits, the production default 262144 +-1 and huge values up to 2^64-1; a case is distinct by (message type, item list, number of items kept); fit is judged on len(gnet.EncodeMessage(m)) exactly as sendMessage does",
+	r.Finish("item lists of 0,1,2,3,cap-1,cap,cap+1,600 and random lengths with small/typical/large items; limits at every cumulative encoded size +-0..5 bytes, random limits, the production default 262144 +-1 and huge values up to 2^64-1; a case is distinct by (message type, item list, number of items kept); fit is judged on len(gnet.EncodeMessage(m)) exactly as sendMessage does. Handler leg: real nodes (default limits 256 KiB out / 1 MiB in, and seeded small outgoing limits at and just above the smallest accepted value) on a harness-built chain and pool answer a raw wire peer's GETB, GETT, ANNT, GIVT and GETP; every frame on the wire is compared with the configured outgoing limit and every reply with the longest fitting prefix of the candidate items (blocks after 'last', known pool transactions in request order, unknown hashes in announcement order, hashes of newly accepted transactions, peer count)",
+		"handler leg: gnet refuses an oversized message and closes the connection, so a reply that is missing on two connections in a row although candidate items fit counts as a violation; a connection closed once is retried (counter node.connection_closed_by_node)",
+		"handler leg: the peer selection of GIVP is random, so only its count, distinctness and membership in the node's peer list are judged",
 		"limits below 12 bytes (the encoded empty message: length prefix, id, item count) are outside the property's quantifier",
 		"peer lists contain only well-formed IPv4 ip:port strings (the constructor skips others, which the statement does not cover)",
 		"item sizes come from the documented wire format and are cross-checked against the encoder on every list; a disagreement makes the run inconclusive rather than violated")
